@@ -8,7 +8,29 @@ os.environ.setdefault("OMP_NUM_THREADS", "1")
 warnings.filterwarnings("ignore")
 
 
+def batch(listfile):
+    sys.path.insert(0, os.environ.get("VERIF_REPO_SRC", "/repo/src"))
+    any_rep = False
+    with open(listfile) as f:
+        paths = [l.strip() for l in f if l.strip()]
+    for path in paths:
+        with open(path) as f:
+            case = json.load(f)
+        try:
+            mod = importlib.import_module("vlib.props.%s" % case["property"].lower())
+            ok, detail = mod.replay(case)
+            ok = bool(ok)
+        except Exception as e:
+            ok, detail = None, "replay raised %r" % (e,)
+        any_rep = any_rep or bool(ok)
+        print("BATCH " + json.dumps({"path": path, "ok": ok, "detail": str(detail)[:800]}), flush=True)
+    sys.exit(1 if any_rep else 0)
+
+
 def main():
+    if sys.argv[1] == "--batch":
+        batch(sys.argv[2])
+        return
     path = sys.argv[1]
     with open(path) as f:
         case = json.load(f)
